@@ -85,6 +85,14 @@ PROGRAM_CORPUS = [
                 "body": [["if", ["param", 0], [["store", "z", ["int", 1]]], None], ["pop", ["load", "y", 1]]], "result": ["load", "z", 2]}]),
     # MaybeValue read before the MaybeValue itself is executed on one path
     dict(_p([["store", "y", ["int", 0]], ["if", ["fee"], [["mv", "m0"]], None], ["pop", ["mvval", "m0", 1]], ["ret", ["int", 1]]]), mvs=["m0"]),
+    # an unstored read in an If arm / a sibling arm / a loop body, and LATER an adjacent `x.store(e); use(x.load())`: with
+    # the optimiser on the pair may only be cancelled if no other load of x exists anywhere in the routine
+    _p([["store", "y", ["int", 0]], ["if", ["fee"], [["pop", ["load", "x", 1]]], None], ["store", "x", ["int", 5]], ["ret", ["load", "x", 2]]]),
+    _p([["store", "y", ["int", 0]], ["if", ["fee"], [["pop", ["load", "x", 1]], ["ret", ["int", 0]]], [["store", "x", ["int", 5]], ["pop", ["load", "x", 2]]]], ["ret", ["int", 1]]]),
+    _p([["store", "y", ["int", 0]], ["while", ["fee"], [["pop", ["load", "x", 1]], ["break"]]], ["store", "x", ["int", 5]], ["ret", ["load", "x", 2]]]),
+    dict(_p([["store", "y", ["int", 0]], ["pop", ["callv", "f0", [["fee"]], None]], ["ret", ["int", 1]]], ("y", "z")),
+         subs=[{"name": "f0", "nval": 1, "ref": False, "ret": "uint64",
+                "body": [["if", ["param", 0], [["pop", ["load", "z", 1]]], None], ["store", "z", ["int", 1]]], "result": ["load", "z", 2]}]),
     # a dead read behind a return in straight-line code
     _p([["store", "y", ["int", 0]], ["ret", ["int", 1]], ["pop", ["load", "x", 1]], ["ret", ["int", 1]]]),
 ]
@@ -446,8 +454,15 @@ def main(argv):
         check_program(ck, model, st, ps, rec, matrix, "program-corpus-%d" % i)
     small = GG.exhaustive_small(1 if thorough else 0)
     for i, rec in enumerate(small):
-        combos = matrix if thorough else [(6, None), (9, None), (10, False)]
+        combos = matrix if thorough else [(6, None), (9, None), (10, False), (8, True)]
         check_program(ck, model, st, ps, rec, combos, "exhaustive-small-%d" % i)
+    # many conditionally stored variables: 2^k slot sets, the unstored path is the last one the real walk reaches
+    fam = [(GG.many_conditional_stores(13, 0), "state-space-13-late"), (GG.many_conditional_stores(12, 11), "state-space-12-early"),
+           (GG.many_conditional_stores(12, 0, first_unconditional=True), "state-space-12-clean")]
+    if thorough:
+        fam += [(GG.many_conditional_stores(14, 0), "state-space-14-late"), (GG.many_conditional_stores(13, 6), "state-space-13-middle")]
+    for rec, name in fam:
+        check_program(ck, model, st, ps, rec, [(6, None), (9, None), (8, True)], name)
     n_random_prog = 12000 if thorough else 1500
     for i in range(n_random_prog):
         gen = GG.Gen(ck.rng, "small" if ck.rng.random() < 0.7 else "large")
